@@ -115,7 +115,7 @@ class Sync(Base):
         return self.check(0x80, [(0x80, b"", self.period, False)] if self.running else [], "sync")
 
     def canon(self):
-        return (tuple(self.live()), self.running, self.period, self.net.sync.period)
+        return (tuple(self.live()), self.running, self.period, kernel.scalar_state(self.net.sync), self.net.sync._task is None)
 
 
 class Pdo(Base):
@@ -157,7 +157,8 @@ class Pdo(Base):
         return self.check(0x205, [(0x205, bytes([self.value]), self.period, False)] if self.running else [], "pdo")
 
     def canon(self):
-        return (tuple(self.live()), self.running, self.period, self.value, self.map.period)
+        return (tuple(self.live()), self.running, self.period, self.value, kernel.scalar_state(self.map, exclude=("timestamp",)),
+                self.map._task is None)
 
 
 class Heartbeat(Base):
@@ -197,11 +198,12 @@ class Heartbeat(Base):
         return self.check(0x706, [(0x706, bytes([self.state]), self.hb_ms / 1000.0, False)] if self.running else [], "heartbeat")
 
     def canon(self):
-        return (tuple(self.live()), self.state, self.hb_ms, self.running, self.node.nmt._state,
-                self.node.nmt._heartbeat_time_ms, tuple(sorted(self.node.data_store.get(0x1017, {}).items())))
+        return (tuple(self.live()), self.state, self.hb_ms, self.running, kernel.scalar_state(self.node.nmt),
+                self.node.nmt._send_task is None, tuple(sorted(self.node.data_store.get(0x1017, {}).items())))
 
 
 class Guarding(Base):
+    # (canon below also records hidden scalars of the NMT master object)
     EVENTS = [("start", 0.1), ("start", 0.3), ("stop",)]
 
     def __init__(self):
@@ -223,7 +225,8 @@ class Guarding(Base):
         return self.check(0x705, [(0x705, b"", self.period, True)] if self.running else [], "guarding")
 
     def canon(self):
-        return (tuple(self.live()), self.running, self.period)
+        return (tuple(self.live()), self.running, self.period, kernel.scalar_state(self.node.nmt, exclude=("timestamp",)),
+                self.node.nmt._node_guarding_producer is None)
 
 
 class Combined(Base):
